@@ -309,7 +309,8 @@ func (s *gridScreen) writeRunes(b []rune) {
 	for _, r := range b {
 		width := runeCellWidth(r)
 		if width > s.size.X {
-			width = s.size.X
+			// wider than the whole screen: cannot be shown
+			r, width = utf8.RuneError, 1
 		}
 		if s.cursorPos.X+width > s.size.X {
 			if s.autoWrap {
@@ -340,7 +341,8 @@ func (s *gridScreen) writeTokens(tokens []GraphemeToken) {
 				width = 1
 			}
 			if width > s.size.X {
-				width = s.size.X
+				// wider than the whole screen: cannot be shown
+				r, width = utf8.RuneError, 1
 			}
 			if s.cursorPos.X+width > s.size.X {
 				if s.autoWrap {
@@ -361,7 +363,8 @@ func (s *gridScreen) writeTokens(tokens []GraphemeToken) {
 			text = text[size:]
 			width := runeCellWidth(r)
 			if width > s.size.X {
-				width = s.size.X
+				// wider than the whole screen: cannot be shown
+				r, width = utf8.RuneError, 1
 			}
 			if s.cursorPos.X+width > s.size.X {
 				if s.autoWrap {
